@@ -12,6 +12,7 @@ Variable lookup_scan : E -> list kp -> option bid.
 Variable waits : E -> list kp -> bool.
 Variable eff : bid -> list kp -> E -> E * option res.
 Variable is_cprh : bid -> bool.
+Variable cpr_lookup : E -> option bid.
 Variable restart : E -> E.
 Variable pfeed : str -> PS -> PS * list kp.
 Variable pflush : PS -> PS * list kp.
@@ -19,23 +20,19 @@ Variable res_eof : res.
 
 Notation core := (core E bid res).
 Notation sys := (sys E bid res PS).
-Notation process_q := (process_q lookup lookup_scan waits eff is_cprh).
-Notation pk := (@pk E bid res PS lookup lookup_scan waits eff is_cprh).
-Notation feed_keys := (@feed_keys E bid res PS lookup lookup_scan waits eff is_cprh).
-Notation do_read := (@do_read E bid res PS lookup lookup_scan waits eff is_cprh pfeed res_eof).
-Notation step := (@step E bid res PS lookup lookup_scan waits eff is_cprh restart pfeed pflush res_eof).
-Notation run := (@run E bid res PS lookup lookup_scan waits eff is_cprh restart pfeed pflush res_eof).
+Notation process_q := (process_q lookup lookup_scan waits eff is_cprh cpr_lookup).
+Notation pk := (@pk E bid res PS lookup lookup_scan waits eff is_cprh cpr_lookup).
+Notation feed_keys := (@feed_keys E bid res PS lookup lookup_scan waits eff is_cprh cpr_lookup).
+Notation do_read := (@do_read E bid res PS lookup lookup_scan waits eff is_cprh cpr_lookup pfeed res_eof).
+Notation step := (@step E bid res PS lookup lookup_scan waits eff is_cprh cpr_lookup restart pfeed pflush res_eof).
+Notation run := (@run E bid res PS lookup lookup_scan waits eff is_cprh cpr_lookup restart pfeed pflush res_eof).
 
 Definition Inv (s : sys) : Prop :=
   nc (acc (co s)) ++ nc (ikeys (store s)) ++ nc (ikeys (queue s)) = nc (decoded s)
   /\ (at_ s = Detached -> queue s = [])
   /\ (at_ s <> Detached -> store s = [])
-  /\ Forall (fun i => item_is_cpr i = false) (store s).
-
-Lemma ikeys_app a b : ikeys (a ++ b) = ikeys a ++ ikeys b.
-Proof. induction a as [|[k|] a IH]; cbn [ikeys app]; rewrite ?IH; reflexivity. Qed.
-Lemma ikeys_map ks : ikeys (map IKey ks) = ks.
-Proof. induction ks as [|k ks IH]; cbn [ikeys map]; rewrite ?IH; reflexivity. Qed.
+  /\ Forall (fun i => item_is_cpr i = false) (store s)
+  /\ pb (co s) = [].
 
 Lemma nc_ikeys_filter q :
   nc (ikeys (filter (fun i => negb (item_is_cpr i)) q)) = nc (ikeys q).
@@ -56,32 +53,34 @@ Qed.
 (* process_keys() while attached *)
 Lemma inv_pk (s : sys) : at_ s <> Detached -> Inv s -> Inv (pk s).
 Proof.
-  intros A (H1 & H2 & H3 & H4). unfold C17_Typeahead.pk.
+  intros A (H1 & H2 & H3 & H4 & H5). unfold C17_Typeahead.pk.
   unfold Inv, with_co, with_queue; cbn [co store queue decoded at_].
   rewrite (H3 A) in *. cbn [ikeys nc filter app] in *.
-  rewrite process_q_acc. repeat split; auto. intros D; contradiction.
+  rewrite (@process_q_acc E bid res lookup lookup_scan waits eff is_cprh cpr_lookup (queue s) (co s) H5).
+  split; [exact H1|]. split; [intros D; contradiction|]. split; [auto|]. split; [auto|].
+  apply process_q_pb. exact H5.
 Qed.
 
 Lemma inv_feed_keys p ks (s : sys) : at_ s <> Detached -> Inv s -> Inv (feed_keys p ks s).
 Proof.
-  intros A (H1 & H2 & H3 & H4). unfold C17_Typeahead.feed_keys. apply inv_pk; [exact A|].
+  intros A (H1 & H2 & H3 & H4 & H5). unfold C17_Typeahead.feed_keys. apply inv_pk; [exact A|].
   unfold Inv; cbn [co store queue decoded at_]. rewrite (H3 A) in *. cbn [ikeys nc filter app] in *.
-  rewrite ikeys_app, ikeys_map, !nc_app, app_assoc, H1. repeat split; auto. intros D; contradiction.
+  rewrite ikeys_app, ikeys_map, !nc_app, app_assoc, H1.
+  split; [reflexivity|]. split; [intros D; contradiction|]. auto.
 Qed.
 
 Lemma inv_finish r (s : sys) : Inv s -> Inv (finish r s).
 Proof.
-  intros (H1 & H2 & H3 & H4). unfold C17_Typeahead.finish, Inv; cbn [co store queue decoded at_].
+  intros (H1 & H2 & H3 & H4 & H5). unfold C17_Typeahead.finish, Inv; cbn [co store queue decoded at_].
   rewrite ikeys_app, nc_app, nc_ikeys_filter. cbn [ikeys nc filter]. rewrite app_nil_r.
-  repeat split; auto.
-  - intros D; congruence.
-  - apply Forall_app; split; [exact H4|apply filter_no_cpr].
+  split; [exact H1|]. split; [auto|]. split; [intros D; congruence|]. split; [|exact H5].
+  apply Forall_app; split; [exact H4|apply filter_no_cpr].
 Qed.
 
 Lemma inv_core_eq (c' : core) (s : sys) :
-  acc c' = acc (co s) -> Inv s -> Inv (with_co c' s).
+  acc c' = acc (co s) -> pb c' = pb (co s) -> Inv s -> Inv (with_co c' s).
 Proof.
-  intros A (H1 & H2 & H3 & H4). unfold Inv, with_co; cbn [co store queue decoded at_]. rewrite A. auto.
+  intros A P (H1 & H2 & H3 & H4 & H5). unfold Inv, with_co; cbn [co store queue decoded at_]. rewrite A, P. auto.
 Qed.
 
 Lemma inv_do_read n (s : sys) : at_ s <> Detached -> Inv s -> Inv (do_read n s).
@@ -91,44 +90,35 @@ Proof.
   - pose proof (inv_pk s A H) as H'.
     destruct (wclosed s); [|exact H'].
     destruct (cph (co (pk s))); [|exact H'|exact H'].
-    apply inv_core_eq; [reflexivity|exact H'].
+    apply inv_core_eq; [reflexivity|reflexivity|exact H'].
   - apply inv_feed_keys; [exact A|]. exact H.
 Qed.
 
 Lemma inv_step (s : sys) l : Inv s -> Inv (step s l).
 Proof.
-  intros H. pose proof H as (H1 & H2 & H3 & H4).
+  intros H. pose proof H as (H1 & H2 & H3 & H4 & H5).
   unfold C17_Typeahead.step.
   destruct (cph (co s)) eqn:PH; destruct l; try exact H.
-  all: try (destruct (wclosed s); [exact H|]; unfold Inv; cbn [co store queue decoded at_]; auto).
+  all: try (destruct (wclosed s); [exact H|]; unfold Inv; cbn [co store queue decoded at_]; auto; fail).
   all: try (unfold Inv; cbn [co store queue decoded at_]; auto; fail).
   all: try (destruct (at_ s) eqn:A; try exact H;
             try (apply inv_do_read; [congruence|exact H]);
             try (destruct (wcpr (co s)); [exact H|apply inv_do_read; [congruence|exact H]]);
             try (apply inv_feed_keys; [congruence|exact H]);
-            try (apply inv_core_eq; [reflexivity|exact H]); fail).
-  all: try (destruct (at_ s) eqn:A; try exact H; destruct (kbuf (co s)) eqn:KB; try exact H;
-            apply inv_pk; [cbn [at_ with_queue]; congruence|];
-            unfold Inv, with_queue; cbn [co store queue decoded at_];
-            rewrite (H3 ltac:(congruence)) in *; cbn [ikeys nc filter app] in *;
-            rewrite ikeys_app; cbn [ikeys]; rewrite app_nil_r; repeat split; auto; congruence).
-  (* LStart, twice; LExit; LExitEnd; LCprTimeout *)
+            try (apply inv_core_eq; [reflexivity|reflexivity|exact H]); fail).
+  (* LStart, twice *)
   all: try (destruct (at_ s) eqn:A; try exact H;
             apply inv_pk; [cbn [at_]; congruence|];
-            unfold Inv; cbn [co store queue decoded at_ est kbuf rlog];
+            unfold Inv; cbn [co store queue decoded at_ est kbuf rlog pb];
             rewrite (H2 eq_refl) in *; cbn [ikeys nc filter app] in *; rewrite app_nil_r in *;
-            repeat split; auto; try congruence;
-            unfold acc in *; cbn [kbuf];
-            rewrite app_nil_r;
+            (split; [|split; [congruence|split; [auto|split; [constructor|exact H5]]]]);
+            unfold acc in *; cbn [kbuf pb rlog]; rewrite H5 in *; rewrite ?app_nil_r in *;
             destruct (kbuf (co s)) eqn:KB; unfold logged in *; cbn [rlog rev map concat ev_keys app ikeys] in *;
             rewrite ?map_app, ?concat_app; cbn [map concat ev_keys app ikeys];
             rewrite ?app_nil_r in *; rewrite ?H1; reflexivity).
   all: try (destruct (at_ s) eqn:A; try exact H;
-            try (destruct (rcpr s && negb (Nat.eqb (wcpr (co s)) 0));
-                 [unfold Inv; cbn [co store queue decoded at_]; repeat split; auto; congruence
-                 |apply inv_finish; exact H]);
             try (destruct (wcpr (co s)); [apply inv_finish; exact H|exact H]);
-            try (apply inv_finish; apply inv_core_eq; [reflexivity|exact H]); fail).
+            try (apply inv_finish; apply inv_core_eq; [reflexivity|reflexivity|exact H]); fail).
   - (* LFlushKeys *)
     destruct (at_ s) eqn:A; [exact H| |]; (destruct (kbuf (co s)); [exact H|]);
       (apply inv_pk; [cbn [at_ with_queue]; congruence|]);
